@@ -21,7 +21,7 @@ from hsim.worlds.http import FlowRecord, HttpWorld
 
 PROPERTY = "C16"
 CHUNK = {"quick": 10, "thorough": 24}
-PROBES = ["older_url_granted_again", "regrant_same_name", "prefix_related_urls", "lookup_extends_several", "lookup_unknown", "temporary_second_lookup",
+PROBES = ["two_sessions_in_one_simulator", "older_url_granted_again", "regrant_same_name", "prefix_related_urls", "lookup_extends_several", "lookup_unknown", "temporary_second_lookup",
           "temporary_via_uploader", "proxy_cap_registered_twice", "proxy_cap_in_seed", "wrapper_resolved",
           "asset_cap_unattributed", "two_sessions", "seed_twice_same_region", "lookup_older_grant", "by_name_most_recent",
           "seed_interleaved_with_lookup"]
@@ -53,6 +53,7 @@ def gen_plan(rng: random.Random, tier: str) -> dict:
         "n_regions": [rng.randint(1, 3) for _ in range(n_sessions)],
         "queue_latency": rng.choice([0.0, 0.003, 0.02]),
         "latency_seed": rng.randrange(1 << 30),
+        "shared_sims": rng.random() < 0.5,
         "tail": 0.5,
     }
     n = rng.randint(3, 30 if big else 16)
@@ -170,11 +171,13 @@ def run_plan(plan: dict) -> RunResult:
         sessions = []
         specs_by = {}
         for s in range(cfg["n_sessions"]):
-            specs = region_specs(s, cfg["n_regions"][s])
+            specs = region_specs(s, cfg["n_regions"][s], cfg.get("shared_sims", False))
             specs_by[s] = specs
             sessions.append(world.login(s, specs))
         if cfg["n_sessions"] > 1:
             res.probe("two_sessions")
+            if cfg.get("shared_sims"):
+                res.probe("two_sessions_in_one_simulator")
         if cfg["queue_latency"]:
             res.fault("queue_latency")
         world.start()
